@@ -150,6 +150,12 @@ func call(car string, v reflect.Value, rules string) func() error {
 		p := reflect.New(st)
 		p.Elem().Field(0).Set(v)
 		return func() error { return valid.Struct(p.Interface(), valid.RM{"F": rules}) }
+	case "struct-tagged+rm":
+		// the field declares optional rules in its tag; the per-call rule set replaces them for this call
+		st := carrier.TagType(v.Type(), "to=2~10,phone")
+		p := reflect.New(st)
+		p.Elem().Field(0).Set(v)
+		return func() error { return valid.Struct(p.Interface(), valid.RM{"F": rules}) }
 	case "var":
 		x := v.Interface()
 		return func() error { return valid.Var(x, rules) }
@@ -236,7 +242,7 @@ func run(c *runner.Ctx) {
 			if !c.Take() {
 				continue
 			}
-			cars := []string{"struct-rm"}
+			cars := []string{"struct-rm", "struct-tagged+rm"}
 			switch tv.v.Kind() { // Map documents scalar values only (int, float, bool, string)
 			case reflect.Slice, reflect.Array, reflect.Map, reflect.Struct, reflect.Ptr:
 			default:
@@ -249,7 +255,7 @@ func run(c *runner.Ctx) {
 				cars = append(cars, "var")
 			}
 			for _, car := range cars {
-				if strings.Contains(rf.rules, "exist") && car != "struct-tag" && car != "struct-rm" {
+				if strings.Contains(rf.rules, "exist") && !strings.HasPrefix(car, "struct-") {
 					continue // exist is documented for structs only
 				}
 				if car == "map-iface" && tv.v.Kind() == reflect.Ptr && tv.v.IsNil() {
@@ -303,7 +309,7 @@ func main() {
 		Property:  "C03",
 		Technique: "complete product of supported field types x emptiness x rule forms x entry points on the real code vs emptiness model",
 		Rule: "every value of a 58-entry catalogue (strings, bool, all numeric kinds, slices nil/empty/non-empty, arrays, maps, structs, pointers to structs and scalars, multi-level pointers) x " +
-			"{required alone (3 message forms), each of 31 other rules alone, required before it, required after it} x carriers {struct tag, struct per-call rule, Var, map[string]T, map[string]interface{}} " +
+			"{required alone (3 message forms), each of 31 other rules alone, required before it, required after it} x carriers {struct tag, struct per-call rule on an untagged field, per-call rule replacing optional tag rules, Var, map[string]T, map[string]interface{}} " +
 			"plus map/URL inputs with missing, bare and empty entries; evaluation = one call; non-trivial = calls on an empty value",
 		Assumptions: []string{"empty-but-non-nil slices/maps are checked for required only (DESIGN §7)", "non-nil pointers to zero scalars are non-empty (the pointer is supplied)"},
 		Run:         run,
